@@ -4,8 +4,10 @@ package websvc
 
 import (
 	"bufio"
+	"context"
 	"fmt"
 	"io"
+	"net"
 	"net/http"
 	"net/http/httptest"
 	"net/url"
@@ -126,6 +128,16 @@ func c19Run(h http.Handler, be *c19Backend, c c19Case) (fs []vrt.Finding, obs st
 	if !strings.HasPrefix(c.Remote, "[") {
 		wantIP, _, _ = strings.Cut(c.Remote, ":")
 	}
+	// A peer address that cannot be split into host and port (possible behind
+	// a wrapping or non-TCP listener): there is no real client address to
+	// pass on, so nothing may reach the backend.
+	if _, _, serr := net.SplitHostPort(c.Remote); serr != nil {
+		if len(be.reqs) > 0 {
+			return vrt.F("forwarded-without-real-client-address", "%s %s from the unparsable peer address %q with headers %q reached the backend with X-Connecting-IP %q", c.Method, c.Target, c.Remote, c.Headers, be.reqs[0].Header.Values("X-Connecting-Ip")), "fwd-unparsable-peer"
+		}
+
+		return nil, fmt.Sprintf("local %d unparsable-peer", rec.Code)
+	}
 	if len(be.reqs) > 1 {
 		return vrt.F("backend-contacted-twice", "%s %s: %d backend requests", c.Method, c.Target, len(be.reqs)), "twice"
 	}
@@ -186,7 +198,7 @@ func c19Run(h http.Handler, be *c19Backend, c c19Case) (fs []vrt.Finding, obs st
 func TestVerifC19(t *testing.T) {
 	r := vrt.Start("C19")
 	apiURL, _ := url.Parse("http://backend.example")
-	h := linkedIPHandler(apiURL, agdtest.NewErrorCollector(), "verif", 2*time.Second)
+	h := linkedIPHandler(apiURL, &agdtest.ErrorCollector{OnCollect: func(_ context.Context, _ error) {}}, "verif", 2*time.Second)
 	be := &c19Backend{}
 	h.(*linkedIPProxy).httpProxy.Transport = be
 
@@ -254,6 +266,12 @@ func TestVerifC19(t *testing.T) {
 			for _, rq := range reqs {
 				for _, remote := range []string{"192.0.2.7:1234", "[2001:db8::7]:4321"} {
 					emit(c19Case{Method: rq[0], Target: rq[1], Headers: hs, Remote: remote})
+				}
+				if mask < 1<<len(allForged) && mask&(mask-1) == 0 {
+					// No or one forged header, from peers whose address does not parse.
+					for _, remote := range []string{"2001:db8::1", "[2001:db8::1", "1.2.3.4:5:6"} {
+						emit(c19Case{Method: rq[0], Target: rq[1], Headers: hs, Remote: remote})
+					}
 				}
 			}
 		}
